@@ -44,10 +44,11 @@ theorem appendEntryNode_step {f : Forest} {e nm : Nat} {N A S : List HTree} (h :
     ∃ s' roots0, Step f (f.appendEntryNode k e nd).1 e nm N A S k roots0 s' ∧
       (f.appendEntryNode k e nd).2.1 = .ok ∧
       s'.map entryPair = omInsert ((Sect.sec k N A).map entryPair) (entryKey v) (payloadOf v) ∧
+      (f.appendEntryNode k e nd).1.next = f.next ∧
       (∀ n, f.mapGetNode k e (entryKey v) = some n →
         (f.appendEntryNode k e nd).2.2 = n.handle ∧
         s'.map (·.handle) = (Sect.sec k N A).map (·.handle) ∧
-        HTree.node nd v [] ∈ (f.appendEntryNode k e nd).1.roots) ∧
+        HTree.node nd v [] ∈ (f.appendEntryNode k e nd).1.roots ∧ roots0 = f.roots) ∧
       (f.mapGetNode k e (entryKey v) = none →
         (f.appendEntryNode k e nd).2.2 = nd ∧
         s'.map (·.handle) = (Sect.sec k N A).map (·.handle) ++ [nd] ∧
@@ -67,17 +68,17 @@ theorem appendEntryNode_step {f : Forest} {e nm : Nat} {N A S : List HTree} (h :
     obtain ⟨heq, hinv, hmap, hnodes⟩ := insert_existing h k v hm n s1 s2 hs _ hkey hs1
     simp only
     rw [heq]
-    refine ⟨_, f.roots, ⟨rfl, hinv, Nat.le_refl _⟩, (by first | rfl | trivial), hmap, ?_, fun hn => (by cases hn)⟩
+    refine ⟨_, f.roots, ⟨rfl, hinv, Nat.le_refl _⟩, (by first | rfl | trivial), hmap, (by first | rfl | trivial), ?_, fun hn => (by cases hn)⟩
     intro n' hn'
     cases hn'
-    exact ⟨rfl, hnodes, leafRoot_mem_withKids f.roots e nd v _ hroot hne⟩
+    exact ⟨rfl, hnodes, leafRoot_mem_withKids f.roots e nd v _ hroot hne, rfl⟩
   | none =>
     have habs := find?_key_none _ _ hf
     obtain ⟨hplace, hinv, hmap, hnodes⟩ := place_absent h k nd v hm hroot hne habs
     simp only
     rw [hplace]
     exact ⟨_, rootsWithout f nd, ⟨rfl, hinv, Nat.le_refl _⟩, (by first | rfl | trivial), hmap,
-      fun n hn => (by cases hn), fun _ => ⟨(by first | rfl | trivial), hnodes, (by first | rfl | trivial)⟩⟩
+      (by first | rfl | trivial), fun n hn => (by cases hn), fun _ => ⟨(by first | rfl | trivial), hnodes, (by first | rfl | trivial)⟩⟩
 
 /-- `any_append` of an entry node is the matching `append_*_node`. -/
 theorem anyAppend_entry (f : Forest) (k : MapKind) (e nd : Nat) (v : Value)
@@ -124,7 +125,7 @@ theorem op_step {f : Forest} {e nm : Nat} {N A S : List HTree} (h : MInv f e nm 
   | insertNode k v =>
     obtain ⟨hloc1, hroot1, _, hbelow1⟩ := located_newNode h.loc h.below v
     have h1 : MInv (f.newNode v).1 e nm N A S := ⟨hloc1, h.sect, h.uniq, hbelow1⟩
-    obtain ⟨s', roots0, st, hok, hmap, _, _⟩ := appendEntryNode_step h1 k f.next v hwf hroot1
+    obtain ⟨s', roots0, st, hok, hmap, _, _, _⟩ := appendEntryNode_step h1 k f.next v hwf hroot1
     have habs : ∀ k', abs k' (f.newNode v).1 e = abs k' f e := by
       intro k'; rw [h1.abs_eq, h.abs_eq]
     refine ⟨_, _, st.inv, hok, ?_⟩
